@@ -224,58 +224,87 @@ Proof.
   - reflexivity.
 Qed.
 
-Lemma nth_error_snoc {A} (l : list A) x j m :
-  nth_error (l ++ [x]) j = Some m -> nth_error l j = Some m \/ (j = length l /\ m = x).
+Lemma index_prefix0 m x : is_prefix m x = true -> index m x = Some 0.
+Proof. intros H. destruct x; cbn [index]; now rewrite H. Qed.
+
+Lemma index_zero m x : index m x = Some 0 -> is_prefix m x = true.
 Proof.
-  intros H. destruct (Nat.lt_ge_cases j (length l)) as [Hl|Hl].
-  - left. now rewrite nth_error_app1 in H.
-  - rewrite nth_error_app2 in H by auto. destruct (j - length l)%nat as [|k] eqn:E.
-    + cbn in H. inversion H. right. split; [lia|auto].
-    + cbn in H. destruct k; discriminate.
+  destruct x as [|y x].
+  - rewrite index_nil. destruct (is_prefix m []); [auto|discriminate].
+  - rewrite index_cons. destruct (is_prefix m (y :: x)); [auto|].
+    destruct (index m x); cbn; intros H; [inversion H; lia|discriminate].
 Qed.
 
-Lemma fm_go_correct d : forall flags done acc,
-  is_fm d done acc -> is_fm d (done ++ flags) (fm_go d flags (length done) acc).
+(* the first-byte test of firstMatch only skips flags that are no prefix anyway *)
+Fixpoint find_simple (d : bytes) (flags : list bytes) (i : nat) : option nat :=
+  match flags with
+  | [] => None
+  | f :: rest => if is_prefix f d then Some i else find_simple d rest (S i)
+  end.
+
+Lemma find_flag_simple d : forall flags i, find_flag d flags i = find_simple d flags i.
 Proof.
-  induction flags as [|f rest IH]; intros done acc Hacc.
-  - cbn. now rewrite app_nil_r.
-  - cbn [fm_go]. replace (done ++ f :: rest) with ((done ++ [f]) ++ rest) by (now rewrite <- app_assoc).
-    replace (S (length done)) with (length (done ++ [f])) by (rewrite app_length; cbn; lia).
-    apply IH.
-    destruct (index f d) as [position|] eqn:Ef.
-    + destruct acc as [[pos i0]|].
-      * destruct Hacc as [(m0 & Hn0 & Hi0) M0].
-        destruct (position <? pos) eqn:Elt.
-        -- apply N.ltb_lt in Elt. split.
-           ++ exists f. split; [|auto]. rewrite nth_error_app2 by lia. now rewrite Nat.sub_diag.
-           ++ intros j m q Hn Hi. apply nth_error_snoc in Hn as [Hn|[-> ->]].
-              ** destruct (M0 _ _ _ Hn Hi) as [A|[A B]]; left; lia.
-              ** rewrite Ef in Hi. inversion Hi. right. split; lia.
-        -- apply N.ltb_ge in Elt. split.
-           ++ exists m0. split; [|auto]. rewrite nth_error_app1; auto.
-              apply nth_error_Some. congruence.
-           ++ intros j m q Hn Hi. apply nth_error_snoc in Hn as [Hn|[-> ->]].
-              ** exact (M0 _ _ _ Hn Hi).
-              ** rewrite Ef in Hi. inversion Hi; subst q.
-                 assert (i0 < length done)%nat by (apply nth_error_Some; congruence). lia.
-      * cbn in Hacc. split.
-        -- exists f. split; [|auto]. rewrite nth_error_app2 by lia. now rewrite Nat.sub_diag.
-        -- intros j m q Hn Hi. apply nth_error_snoc in Hn as [Hn|[-> ->]].
-           ++ rewrite (Hacc _ _ Hn) in Hi. discriminate.
-           ++ rewrite Ef in Hi. inversion Hi. right. split; lia.
-    + destruct acc as [[pos i0]|].
-      * destruct Hacc as [(m0 & Hn0 & Hi0) M0]. split.
-        -- exists m0. split; [|auto]. rewrite nth_error_app1; auto. apply nth_error_Some. congruence.
-        -- intros j m q Hn Hi. apply nth_error_snoc in Hn as [Hn|[-> ->]].
-           ++ exact (M0 _ _ _ Hn Hi).
-           ++ rewrite Ef in Hi. discriminate.
-      * cbn in *. intros j m Hn. apply nth_error_snoc in Hn as [Hn|[-> ->]]; [eauto|auto].
+  induction flags as [|f rest IH]; intros i; [reflexivity|]. cbn [find_flag find_simple].
+  destruct f as [|c0 f']; [reflexivity|]. destruct d as [|c d']; [cbn; apply IH|].
+  destruct (c0 =? c) eqn:E; cbn [negb].
+  - now rewrite IH.
+  - cbn [is_prefix]. rewrite E. cbn. apply IH.
 Qed.
 
-Lemma first_match_correct d tb : is_fm d tb (first_match d tb).
+Lemma find_simple_some d : forall flags i0 i, find_simple d flags i0 = Some i ->
+  (i0 <= i)%nat /\ (exists m, nth_error flags (i - i0) = Some m /\ is_prefix m d = true) /\
+  (forall j m, (j < i - i0)%nat -> nth_error flags j = Some m -> is_prefix m d = false).
 Proof.
-  unfold first_match. apply (fm_go_correct d tb [] None). cbn. intros j m H. destruct j; discriminate.
+  induction flags as [|f rest IH]; intros i0 i H; [discriminate|]. cbn [find_simple] in H.
+  destruct (is_prefix f d) eqn:E.
+  - inversion H; subst. rewrite Nat.sub_diag. split; [lia|]. split; [exists f; auto|]. intros j m Hj. lia.
+  - destruct (IH _ _ H) as (Hle & (m & Hn & Hp) & Hm). split; [lia|].
+    replace (i - i0)%nat with (S (i - S i0)) by lia. split; [exists m; auto|].
+    intros j m' Hj Hn'. destruct j as [|j]; [cbn in Hn'; inversion Hn'; subst; exact E|].
+    cbn in Hn'. apply (Hm j m'); [lia|exact Hn'].
 Qed.
 
-Lemma first_match_is d tb r : is_fm d tb r -> first_match d tb = r.
-Proof. intros H. eapply is_fm_unique; [apply first_match_correct|exact H]. Qed.
+Lemma find_simple_none d : forall flags i0, find_simple d flags i0 = None ->
+  forall j m, nth_error flags j = Some m -> is_prefix m d = false.
+Proof.
+  induction flags as [|f rest IH]; intros i0 H j m Hn; [destruct j; discriminate|]. cbn [find_simple] in H.
+  destruct (is_prefix f d) eqn:E; [discriminate|].
+  destruct j as [|j]; [cbn in Hn; inversion Hn; subst; exact E|]. cbn in Hn. eapply IH; eauto.
+Qed.
+
+Lemma fm_at_shift tb : forall d pos,
+  fm_at d tb pos = match fm_at d tb 0 with Some (p, i) => Some (pos + p, i) | None => None end.
+Proof.
+  induction d as [|c t IH]; intros pos; [reflexivity|]. cbn [fm_at].
+  destruct (find_flag (c :: t) tb 0); [now rewrite N.add_0_r|].
+  rewrite (IH (N.succ pos)), (IH (N.succ 0)). destruct (fm_at t tb 0) as [[p i]|]; [|reflexivity].
+  f_equal. f_equal. lia.
+Qed.
+
+Lemma first_match_correct d tb : Forall (fun m => m <> []) tb -> is_fm d tb (first_match d tb).
+Proof.
+  intros Hne. unfold first_match. induction d as [|c t IH].
+  - cbn [fm_at]. unfold is_fm. intros j m Hn. rewrite index_nil.
+    assert (m <> []) by (rewrite Forall_forall in Hne; apply Hne; eapply nth_error_In; eauto).
+    destruct m; [congruence|reflexivity].
+  - cbn [fm_at]. rewrite find_flag_simple. destruct (find_simple (c :: t) tb 0) as [i|] eqn:F.
+    + destruct (find_simple_some _ _ _ _ F) as (_ & (m & Hn & Hp) & Hm). rewrite Nat.sub_0_r in *.
+      split; [exists m; split; [auto|now apply index_prefix0]|].
+      intros j m' q Hn' Hq. destruct (N.eq_dec q 0) as [->|Hq0]; [|left; lia].
+      right. split; [reflexivity|]. apply index_zero in Hq.
+      destruct (Nat.lt_ge_cases j i) as [Hlt|Hge]; [|exact Hge].
+      rewrite (Hm j m' Hlt Hn') in Hq. discriminate.
+    + pose proof (find_simple_none _ _ _ F) as Hnp.
+      assert (Hidx : forall j m, nth_error tb j = Some m -> index m (c :: t) = option_map N.succ (index m t)).
+      { intros j m Hn. rewrite index_cons, (Hnp j m Hn). reflexivity. }
+      rewrite fm_at_shift. destruct (fm_at t tb 0) as [[p i]|].
+      * destruct IH as [(m & Hn & Hi) Hmin]. split.
+        -- exists m. split; [auto|]. rewrite (Hidx _ _ Hn), Hi. cbn [option_map]. f_equal. lia.
+        -- intros j m' q Hn' Hq. rewrite (Hidx _ _ Hn') in Hq.
+           destruct (index m' t) as [q'|] eqn:Eq; [|discriminate]. cbn [option_map] in Hq. apply Some_inj in Hq. subst q.
+           destruct (Hmin _ _ _ Hn' Eq) as [A|[A B]]; [left; lia|right; split; [lia|exact B]].
+      * cbn in IH. intros j m Hn. rewrite (Hidx _ _ Hn), (IH _ _ Hn). reflexivity.
+Qed.
+
+Lemma first_match_is d tb r : Forall (fun m => m <> []) tb -> is_fm d tb r -> first_match d tb = r.
+Proof. intros Hne H. eapply is_fm_unique; [apply first_match_correct; exact Hne|exact H]. Qed.
